@@ -187,14 +187,18 @@ fn judge_e2e(g: &E2eGroup) -> GroupJudged {
             let (r0, f0) = first.as_ref().unwrap();
             if *f0 != findings {
                 j.findings_differ = true;
-                return j;
             }
             if *r0 != report && j.violation.is_none() {
                 let at = first_diff(r0, &report);
                 j.violation = Some((
-                    "report_differs_between_schedules".into(),
+                    if *f0 != findings {
+                        "report_differs_between_schedules_findings_too".into()
+                    } else {
+                        "report_differs_between_schedules".into()
+                    },
                     format!(
-                        "same tree, same selected patterns, same findings ({} entries), but the report under schedule #{} differs from schedule #0 at byte {}: ...{}... vs ...{}...",
+                        "same tree, same selected patterns{} ({} entries), but the report under schedule #{} differs from schedule #0 at byte {}: ...{}... vs ...{}...",
+                        if *f0 != findings { ", and already the walkers return different findings" } else { ", same findings" },
                         findings.len(),
                         i,
                         at,
@@ -335,13 +339,13 @@ impl Property for C13 {
         d.sort();
         d.dedup();
         r.probe("sections_ge_2_and_orders_ge_2", j.sections >= 2 && d.len() >= 2);
-        if j.sections >= 2 && d.len() >= 2 && !j.aborted && !j.findings_differ {
+        if j.sections >= 2 && d.len() >= 2 && !j.aborted {
             r.nontrivial.push(mix(j.findings_hash ^ d.iter().fold(0, |a, b| mix(a ^ b))));
         }
         r.interleavings.extend(d);
         r.states.push(j.findings_hash);
         if j.findings_differ {
-            r.count("groups_skipped_findings_differ", 1);
+            r.count("groups_where_findings_differ", 1);
         }
         if j.aborted {
             r.count("groups_skipped_run_aborted", 1);
@@ -509,7 +513,7 @@ impl Property for C13 {
         vec!["sections_ge_2_and_orders_ge_2"]
     }
     fn rule(&self) -> String {
-        format!("Each scenario is a group of {} executions that must produce byte-identical reports: (a) end-to-end -- one generated tree and pattern set run under {} schedules that differ in listing permutation (7 modes), iteration permutation (4 modes) and configured pattern order; (b) render level -- one findings set materialised as {} maps built in different entry orders and iterated in different orders, each through the real generate_report. Groups whose runs abort or whose walkers disagree on the findings are skipped and counted (that is C03's business). Non-trivial = the findings span >=2 report sections and the group contains >=2 distinct decision traces; distinct = distinct hash of (findings, set of decision traces). evaluations counts single executions.", K, K, K)
+        format!("Each scenario is a group of {} executions that must produce byte-identical reports: (a) end-to-end -- one generated tree and pattern set run under {} schedules that differ in listing permutation (7 modes), iteration permutation (4 modes) and configured pattern order; (b) render level -- one findings set materialised as {} maps built in different entry orders and iterated in different orders, each through the real generate_report. Groups in which a run aborts are skipped and counted. If the walkers return different findings under two schedules the reports differ too and that is reported here as well (two runs over the same directory content must give the same bytes, whatever the cause). Non-trivial = the findings span >=2 report sections and the group contains >=2 distinct decision traces; distinct = distinct hash of (findings, set of decision traces). evaluations counts single executions.", K, K, K)
     }
     fn assumptions(&self) -> Vec<String> {
         vec![
